@@ -7,7 +7,10 @@ epoch against the source samples `lo ≤ i < maxi` of the same epoch.
 Proved: **a value is never taken from a different interval** — whatever the timestamps, the mode
 and the ties, the index stored for a query of the epoch is `none` (NaN) or an index inside the
 source window of that same epoch, and entries of other epochs are left untouched.
-Not proved yet: the per-mode choice (nearest / latest-before / earliest-after); decided by the
+Proved as well: **mode `closest` (the default) returns a nearest source sample of the query's own
+epoch** (`vfT_closest`, with the inner-scan specification `vfInner_closest` and the cursor invariant
+`left_invariant`), for non-decreasing queries and samples of any lengths, ties and duplicates included.
+Modes `before` / `after` (latest-before / earliest-after, NaN when there is none) are decided by the
 oracle + correspondence run.
 -/
 namespace Pyn.C06
@@ -69,6 +72,145 @@ theorem vfT_window (ts tt : Array Int) (mode maxt maxi : Nat) (hmt : maxt ≤ ts
       · exact h2 ⟨by omega, hin.2⟩ j hj
   | case2 t i hi idx ht =>
     refine ⟨rfl, fun p hp hp' => ⟨fun _ => rfl, fun hin => by omega⟩⟩
+
+/-! ## mode `closest`: the chosen sample is a nearest one of the epoch -/
+
+/-- distance of source sample `q` to the query time `x` -/
+def D (tt : Array Int) (x : Int) (q : Nat) : Int := ((tt.getD q 0 - x).natAbs : Int)
+
+theorem D_eq (tt : Array Int) (x : Int) (q : Nat) (h : q < tt.size) : D tt x q = ((tt[q] - x).natAbs : Int) := by
+  simp [D, Array.getD, h]
+
+/-- the inner scan in mode `closest`: from the cursor it walks while the distance does not increase and
+stops at the first strict increase (or at the end of the epoch's source window) -/
+theorem vfInner_closest (tt : Array Int) (x : Int) (maxi : Nat) (hmax : maxi ≤ tt.size) (i : Nat) (interval : Int)
+    (cur : Option Nat) (hi1 : 1 ≤ i) (hi : i ≤ maxi) (hc : cur = some (i - 1)) (hint : interval = D tt x (i - 1)) :
+    ∃ j, (vfInner tt x 1 maxi hmax i interval cur false).2.1 = some j ∧
+      (vfInner tt x 1 maxi hmax i interval cur false).1 = j + 1 ∧
+      (vfInner tt x 1 maxi hmax i interval cur false).2.2 = false ∧
+      i - 1 ≤ j ∧ j < maxi ∧ (∀ q, i - 1 ≤ q → q ≤ j → D tt x j ≤ D tt x q) ∧
+      (j + 1 < maxi → D tt x j < D tt x (j + 1)) := by
+  induction hn : maxi - i generalizing i interval cur with
+  | zero =>
+    unfold vfInner
+    have : ¬ i < maxi := by omega
+    simp only [dif_neg this]
+    exact ⟨i - 1, hc, by omega, trivial, Nat.le_refl _, by omega, fun q h1 h2 => by
+      have : q = i - 1 := by omega
+      subst this; exact Int.le_refl _, fun h => by omega⟩
+  | succ n ih =>
+    have hlt : i < maxi := by omega
+    unfold vfInner
+    simp only [dif_pos hlt]
+    have hnew : vfNew 1 (tt[i]'(by omega) - x) = D tt x i := by
+      rw [D_eq tt x i (by omega)]; simp [vfNew]
+    simp only [hnew]
+    by_cases hb : vfBreak 1 (D tt x i) interval = true
+    · simp only [hb, if_true]
+      have hgt : D tt x i > interval := by simpa [vfBreak] using hb
+      have hnan : vfNan 1 (D tt x i) interval = false := by simp [vfNan]
+      simp only [hnan]
+      refine ⟨i - 1, by simpa using hc, by omega, trivial, Nat.le_refl _, by omega, fun q h1 h2 => by
+        have : q = i - 1 := by omega
+        subst this; exact Int.le_refl _, fun _ => ?_⟩
+      have e : i - 1 + 1 = i := by omega
+      rw [e, ← hint]; exact hgt
+    · simp only [hb]
+      have hle : D tt x i ≤ interval := by
+        have : ¬ (D tt x i > interval) := by simpa [vfBreak] using hb
+        omega
+      have hnan : vfNan 1 (D tt x i) interval = false := by simp [vfNan]
+      simp only [hnan, Bool.false_eq_true, if_false]
+      obtain ⟨j, a1, a2, a3, a4, a5, a6, a7⟩ := ih (i+1) (D tt x i) (some i) (by omega) (by omega) (by simp) (by simp) (by omega)
+      refine ⟨j, a1, a2, a3, by omega, a5, ?_, a7⟩
+      intro q h1 h2
+      by_cases hq : q = i - 1
+      · subst hq
+        have := a6 i (by simp) (by simpa using a4)
+        rw [← hint]; omega
+      · exact a6 q (by simp; omega) h2
+
+/-- the cursor invariant carries over to the next (later) query: nothing left of an optimal index can
+become strictly better for a later query time -/
+theorem left_invariant (tq tj x x' : Int) (h1 : tq ≤ tj) (hx : x ≤ x')
+    (hopt : ((tj - x).natAbs : Int) ≤ ((tq - x).natAbs : Int)) :
+    ((tj - x').natAbs : Int) ≤ ((tq - x').natAbs : Int) := by omega
+
+/-- **mode `closest` picks a nearest source sample of the query's own epoch.**  For non-decreasing
+queries and non-decreasing source samples (ties, duplicates, queries before / after all samples of the
+epoch included): after scanning the queries `[t, maxt)` of an epoch whose source window is `[lo, maxi)`,
+every one of them carries an index `j` of that window with `|tt[j] − ts[p]| ≤ |tt[q] − ts[p]|` for
+EVERY source sample `q` of the window.  (`hleft`: nothing left of the cursor is strictly closer to the
+first query than the cursor — true for the cursor `lo` an epoch starts with.) -/
+theorem vfT_closest (ts tt : Array Int) (hsq : Sorted ts) (hss : Sorted tt) (maxt maxi : Nat) (hmt : maxt ≤ ts.size)
+    (hmi : maxi ≤ tt.size) (lo t i : Nat) (hi : i < maxi) (hlo : lo ≤ i) (idx : Array (Option Nat)) (hsz : maxt ≤ idx.size)
+    (hleft : (ht : t < maxt) → ∀ q, lo ≤ q → q < i → D tt (ts[t]'(by omega)) i ≤ D tt (ts[t]'(by omega)) q) :
+    ∀ p, t ≤ p → (hp : p < maxt) → ∃ j, (vfT ts tt 1 maxt maxi hmt hmi t i hi idx)[p]? = some (some j) ∧
+      lo ≤ j ∧ j < maxi ∧ ∀ q, lo ≤ q → q < maxi → D tt (ts[p]'(by omega)) j ≤ D tt (ts[p]'(by omega)) q := by
+  induction hn : maxt - t generalizing t i idx with
+  | zero => intro p h1 h2; omega
+  | succ n ih =>
+    have ht : t < maxt := by omega
+    intro p hp1 hp2
+    unfold vfT
+    simp only [dif_pos ht]
+    have hint : vfNew 1 (tt[i]'(by omega) - ts[t]) = D tt ts[t] i := by
+      rw [D_eq tt _ i (by omega)]; simp [vfNew]
+    simp only [hint]
+    have hnan0 : (if (1 : Nat) = 0 then decide (D tt ts[t] i > 0) else false) = false := by simp
+    simp only [hnan0]
+    obtain ⟨j, a1, a2, a3, a4, a5, a6, a7⟩ := vfInner_closest tt ts[t] maxi hmi (i+1) (D tt ts[t] i) (some i)
+      (by omega) (by omega) (by simp) (by simp)
+    simp only [Nat.add_sub_cancel] at a4 a6
+    -- the value stored for query t
+    have hcur : (if (vfInner tt ts[t] 1 maxi hmi (i + 1) (D tt ts[t] i) (some i) false).1 = maxi then
+          if (if (1 : Nat) = 2 then decide (tt[(vfInner tt ts[t] 1 maxi hmi (i + 1) (D tt ts[t] i) (some i) false).1 - 1]'(by
+                have := vfInner_bounds tt ts[t] 1 maxi hmi (i+1) (D tt ts[t] i) (some i) false (by omega); omega) - ts[t] < 0)
+              else (vfInner tt ts[t] 1 maxi hmi (i + 1) (D tt ts[t] i) (some i) false).2.2) = true then none
+          else (vfInner tt ts[t] 1 maxi hmi (i + 1) (D tt ts[t] i) (some i) false).2.1
+        else (vfInner tt ts[t] 1 maxi hmi (i + 1) (D tt ts[t] i) (some i) false).2.1) = some j := by
+      simp [a1, a3]
+    rw [hcur]
+    have hcursor : (vfInner tt ts[t] 1 maxi hmi (i + 1) (D tt ts[t] i) (some i) false).1 - 1 = j := by omega
+    -- optimality of j for query t
+    have hopt : ∀ q, lo ≤ q → q < maxi → D tt ts[t] j ≤ D tt ts[t] q := by
+      intro q hq1 hq2
+      have hji : D tt ts[t] j ≤ D tt ts[t] i := a6 i (Nat.le_refl _) a4
+      by_cases hqi : q < i
+      · have := hleft ht q hq1 hqi; omega
+      · by_cases hqj : q ≤ j
+        · exact a6 q (by omega) hqj
+        · -- q beyond the stop: the distance grew at j+1 and keeps growing
+          have hj1 : j + 1 < maxi := by omega
+          have hgrow := a7 hj1
+          rw [D_eq tt _ j (by omega), D_eq tt _ (j+1) (by omega)] at hgrow
+          rw [D_eq tt _ j (by omega), D_eq tt _ q (by omega)]
+          have m1 := hss j (j+1) (by omega) (by omega) (by omega)
+          have m2 := hss (j+1) q (by omega) (by omega) (by omega)
+          omega
+    by_cases hpt : p = t
+    · subst hpt
+      refine ⟨j, ?_, by omega, a5, hopt⟩
+      have hw := vfT_window ts tt 1 maxt maxi hmt hmi (p+1) _ (by omega : (vfInner tt ts[p] 1 maxi hmi (i + 1) (D tt ts[p] i) (some i) false).1 - 1 < maxi)
+        (idx.setIfInBounds p (some j)) lo (by omega)
+      obtain ⟨w1, w2⟩ := hw
+      have hp' : p < (idx.setIfInBounds p (some j)).size := by simp; omega
+      have := (w2 p hp' (by rw [w1]; exact hp')).1 (Or.inl (by omega))
+      rw [Array.getElem?_eq_getElem (by rw [w1]; exact hp'), this]
+      simp
+    · have hnext : t + 1 < maxt := by omega
+      have := ih (t+1) ((vfInner tt ts[t] 1 maxi hmi (i + 1) (D tt ts[t] i) (some i) false).1 - 1) (by omega) (by omega)
+        (idx.setIfInBounds t (some j)) (by simp; exact hsz)
+        (fun ht' q hq1 hq2 => by
+          rw [hcursor] at hq2 ⊢
+          rw [D_eq tt _ j (by omega), D_eq tt _ q (by omega)]
+          have h0 := hopt q hq1 (by omega)
+          rw [D_eq tt _ j (by omega), D_eq tt _ q (by omega)] at h0
+          exact left_invariant tt[q] tt[j] ts[t] ts[t+1] (hss q j (by omega) (by omega) (by omega))
+            (hsq t (t+1) (by omega) (by omega) (by omega)) h0)
+        (by omega) p (by omega) hp2
+      exact this
+
 
 /-- concrete runs (mode 0 = before, 1 = closest, 2 = after); the first is the input that was
 wrong before the repair: a query preceding the only source sample of its epoch -/
